@@ -105,6 +105,8 @@ impl Story {
 
         let mut output_stream_ends_in_newline = false;
         self.saw_lookahead_unsafe_function_after_new_line = false;
+        #[cfg(feature = "verif")]
+        let mut verif_steps_this_call: u64 = 0;
 
         loop {
             match self.continue_single_step() {
@@ -117,6 +119,21 @@ impl Story {
 
             if output_stream_ends_in_newline {
                 break;
+            }
+
+            // Virtual clock: pause after a host-set number of steps.
+            #[cfg(feature = "verif")]
+            {
+                verif_steps_this_call += 1;
+                if self.async_continue_active
+                    && self
+                        .verif
+                        .async_step_budget
+                        .is_some_and(|b| verif_steps_this_call >= b)
+                {
+                    self.verif.counters.async_pauses += 1;
+                    break;
+                }
             }
 
             // Run out of async time?
@@ -342,6 +359,9 @@ impl Story {
     }
 
     pub(crate) fn step(&mut self) -> Result<(), StoryError> {
+        #[cfg(feature = "verif")]
+        self.verif_on_step()?;
+
         let mut should_add_to_stream = true;
 
         // Get current content
